@@ -1467,6 +1467,14 @@ class Interp:
                 r = a in b
             elif is_strlike(b) and is_strlike(a) and not isinstance(b, (list, tuple)):
                 r = self.substr_in(a, b)
+            elif isinstance(b, range) and isinstance(a, SInt):
+                # membership in a concrete range is arithmetic (never enumerate: range(400_000_000, 499_999_999))
+                if b.step > 0:
+                    r = SBool(z3.And(a.t >= b.start, a.t < b.stop, (a.t - b.start) % b.step == 0))
+                else:
+                    r = SBool(z3.And(a.t <= b.start, a.t > b.stop, (b.start - a.t) % (-b.step) == 0))
+            elif isinstance(b, range) and isinstance(a, int) and not isinstance(a, bool):
+                r = a in b
             else:
                 items = self.iterate(b)
                 if is_strlike(a):
